@@ -731,6 +731,11 @@ class C09(Prop):
     def generate(self, rng, n, tier):
         return [self.gen_case(rng, "g%d" % i) for i in range(n)]
 
+    def shrink_ok(self, lines):
+        """a shrunk case must still be a case that runs: registry loaded first, `run` last (without `run` there is no
+        final observation and the judge's `no-observation` / `no-exit` verdicts would pass for the original verdict)"""
+        return len(lines) >= 2 and lines[0] == HEAD[0] and lines[-1] == "run" and lines.count("run") == 1
+
     def nontrivial_key(self, case, out):
         import hashlib
         tasks = [l for l in out if l.startswith("t ")]
